@@ -243,7 +243,9 @@ class Characteristic:
         """
         if self.getter_callback:
             # pylint: disable=not-callable
-            self.value = self.to_valid_value(value=self.getter_callback())
+            value = self.to_valid_value(value=self.getter_callback())
+            self.valid_value_or_raise(value)
+            self.value = value
         return self._value
 
     def valid_value_or_raise(self, value: Any) -> None:
